@@ -8,6 +8,13 @@
 (*   trunc(h)    replaces the state by Truncate(state, h)                  *)
 (*   clone       continues on a copy (same state)                          *)
 (*   reimport    continues on from_named(as_named(object)) (same state)    *)
+(* and, with OPSET = "pair", a SECOND object (a snapshot, initially a      *)
+(* clone of the first):                                                    *)
+(*   snap        the snapshot becomes a clone of the object                *)
+(*   swap        continue on the snapshot, the object becomes the snapshot *)
+(*   dist        observes distance(object, snapshot, 1) - must be the      *)
+(*               exact distance of the two CURRENT states: nothing one     *)
+(*               object undergoes may show in the other                    *)
 (* TLC enumerates every operation sequence of length Depth over three      *)
 (* thresholds on each seeded (game, profile) and prints the behaviour with *)
 (* the exact observation after every step; `harness replay history` steps  *)
@@ -21,16 +28,17 @@ Cases == ndJsonDeserialize(IOEnv.CASES)
 Depth == atoi(IOEnv.DEPTH)
 
 Thresholds == <<<<1, 4>>, <<1, 2>>, <<3, 5>>>>
-Ops == {"eval", "t1", "t2", "t3", "clone", "reimport"}
+Pair == "OPSET" \in DOMAIN IOEnv /\ IOEnv.OPSET = "pair"
+Ops == IF Pair THEN {"eval", "t1", "t3", "snap", "swap", "dist"} ELSE {"eval", "t1", "t2", "t3", "clone", "reimport"}
 
-VARIABLES c, obj, hist, fragile
-vars == <<c, obj, hist, fragile>>
+VARIABLES c, obj, snap, hist, fragile
+vars == <<c, obj, snap, hist, fragile>>
 
 Tree(i) == Cases[i].tree
 Start(i) == [p \in 1..2 |-> [n \in InfoNames(Tree(i), p) |->
                LET w == Cases[i].prof[p][n] IN [j \in 1..Len(w) |-> Frac(w[j], SumSeq(w))]]]
 
-Init == c \in 1..Len(Cases) /\ obj = Start(c) /\ hist = <<>> /\ fragile = FALSE
+Init == c \in 1..Len(Cases) /\ obj = Start(c) /\ snap = Start(c) /\ hist = <<>> /\ fragile = FALSE
 
 \* A truncation whose threshold EQUALS a current probability is decided by rounding in floating point once
 \* the probability is the result of an earlier rescaling (0.375 / 0.625 need not be the double 0.6): from
@@ -41,22 +49,42 @@ ThresholdOf(op) == IF op = "t1" THEN Thresholds[1] ELSE IF op = "t2" THEN Thresh
 Observe(i, o) == LET wp == WeightProfile(o)
                  IN IF WeightsOK(wp) THEN Evaluate(Tree(i), wp) ELSE [poisoned |-> TRUE]
 
+\* distance with exponent 1 (lib.rs): per player, the sum of |x - y| over all cells divided by twice the number of
+\* (multi-action) infosets; zero for a player without infosets
+RAbs1(x) == IF x[1] < 0 THEN RNeg(x) ELSE x
+DistOf(o, s) ==
+  [p \in 1..2 |->
+     IF DOMAIN o[p] = {} THEN Zero
+     ELSE LET names == DOMAIN o[p]
+              per(n) == RSumSeq([j \in 1..Len(o[p][n]) |-> RAbs1(RSub(o[p][n][j], s[p][n][j]))])
+              RECURSIVE Sum(_)
+              Sum(S) == IF S = {} THEN Zero ELSE LET n == CHOOSE x \in S : TRUE IN RAdd(per(n), Sum(S \ {n}))
+          IN RDiv(Sum(names), R(2 * Cardinality(names)))]
+DistObs(o, s) == LET d == DistOf(o, s)
+                 IN IF IsPoison(d[1]) \/ IsPoison(d[2]) THEN [poisoned |-> TRUE]
+                    ELSE [poisoned |-> FALSE, d1 |-> d[1], d2 |-> d[2]]
+
 Step(op) ==
   /\ Len(hist) < Depth
   /\ obj' = IF op = "t1" THEN Clipped(obj, Thresholds[1])
             ELSE IF op = "t2" THEN Clipped(obj, Thresholds[2])
             ELSE IF op = "t3" THEN Clipped(obj, Thresholds[3])
+            ELSE IF op = "swap" THEN snap
             ELSE obj
+  /\ snap' = IF op \in {"snap", "swap"} THEN obj ELSE snap
   /\ fragile' = (fragile \/ (op \in {"t1", "t2", "t3"} /\ AtThreshold(obj, ThresholdOf(op))))
-  /\ hist' = Append(hist, [op |-> op, obs |-> IF op = "eval" /\ ~fragile THEN Observe(c, obj) ELSE [poisoned |-> TRUE]])
+  /\ hist' = Append(hist, [op |-> op, obs |-> IF op = "eval" /\ ~fragile THEN Observe(c, obj)
+                                             ELSE IF op = "dist" /\ ~fragile THEN DistObs(obj, snap)
+                                             ELSE [poisoned |-> TRUE]])
   /\ UNCHANGED c
 
 Next == \E op \in Ops : Step(op)
 Spec == Init /\ [][Next]_vars
 
 \* a behaviour is worth replaying if it observes after having mutated (and ends with an observation)
-Interesting == /\ Len(hist) = Depth /\ hist[Depth].op = "eval"
+Interesting == /\ Len(hist) = Depth /\ hist[Depth].op \in {"eval", "dist"}
                /\ \E j \in 1..(Depth - 1) : hist[j].op \in {"t1", "t2", "t3"}
+               /\ (Pair => \E j \in 1..Depth : hist[j].op \in {"snap", "swap", "dist"})
 Emit == Interesting => PrintT(<<"OUT", Cases[c].id, ToJson([id |-> Cases[c].id, hist |-> hist])>>)
 \* the state is a profile after every operation
 StateIsProfile == \A p \in 1..2 : \A n \in DOMAIN obj[p] : RSumSeq(obj[p][n]) = One
